@@ -12,6 +12,7 @@ import (
 	sdkmath "cosmossdk.io/math"
 	sdk "github.com/cosmos/cosmos-sdk/types"
 	authtypes "github.com/cosmos/cosmos-sdk/x/auth/types"
+	banktypes "github.com/cosmos/cosmos-sdk/x/bank/types"
 	capabilitytypes "github.com/cosmos/ibc-go/modules/capability/types"
 	transfertypes "github.com/cosmos/ibc-go/v8/modules/apps/transfer/types"
 	clienttypes "github.com/cosmos/ibc-go/v8/modules/core/02-client/types"
@@ -148,4 +149,18 @@ func VoucherDenom(c *lib.Chain, ctx sdk.Context, portID, channelID, base string)
 		c.App.IBCTransferKeeper.SetDenomTrace(ctx, trace)
 	}
 	return trace.IBCDenom()
+}
+
+// AddOwnVoucherToken registers the IBC voucher denom of `base` over (port, channel) itself as the coin of a
+// native-coin token pair (one-to-one registration, erc20 RegisterNativeCoin as governance does it).
+func AddOwnVoucherToken(c *lib.Chain, ctx sdk.Context, portID, channelID, base string) Token {
+	trace := transfertypes.ParseDenomTrace(transfertypes.GetDenomPrefix(portID, channelID) + base)
+	denom := trace.IBCDenom()
+	meta := banktypes.Metadata{
+		Base: denom, Name: trace.GetFullDenomPath(), Symbol: strings.ToUpper(base), Display: strings.ToLower(base),
+		DenomUnits: []*banktypes.DenomUnit{{Denom: denom, Exponent: 0}, {Denom: strings.ToUpper(base), Exponent: 18}},
+	}
+	pair, err := c.App.Erc20Keeper.RegisterNativeCoin(ctx, meta)
+	lib.Must(err)
+	return Token{Base: denom, Erc20: pair.GetERC20Contract(), NativeCoin: true}
 }
